@@ -17,6 +17,8 @@ pub fn scenario(tier: &str) -> IncScn {
     roots.push(IncRoot { label: "native-lp/two-flows-55-unclaimed-epochs".into(), lp_native: true, fee_kind: FeeKind::NativeDiff, prefix: 6, standing_allowance: false });
     // 99 epochs without a claim: one more epoch puts the claim exactly on the 100-epoch cap
     roots.push(IncRoot { label: "native-lp/99-unclaimed-epochs".into(), lp_native: true, fee_kind: FeeKind::NativeDiff, prefix: 4, standing_allowance: false });
+    // a flow older than 20 epochs whose stakers last claimed more than 20 epochs ago
+    roots.push(IncRoot { label: "native-lp/60-epoch-flow-claimed-22-epochs-ago".into(), lp_native: true, fee_kind: FeeKind::NativeDiff, prefix: 7, standing_allowance: false });
     if tier != "quick" {
         roots.push(IncRoot { label: "native-lp/positions".into(), lp_native: true, fee_kind: FeeKind::Cw20Diff, prefix: 1, standing_allowance: false });
     }
